@@ -102,7 +102,7 @@ class AXISlaveStub:
                 stmts += [r.valid.eq(1), r.data.eq(data), r.id.eq(e["id"]), r.last.eq(int(e["i"] == len(e["addrs"]) - 1)), r.resp.eq(0)]
                 rvalid = 1
             elif not rvalid:
-                stmts.append(r.valid.eq(0))
+                stmts += [r.valid.eq(0), r.data.eq(self.rng.getrandbits(len(r.data)))]      # data without valid is garbage
             n = st_ar.next() if len(self.ar_q) < 16 else 0
             if n != arready:
                 stmts.append(ar.ready.eq(n))
